@@ -3,4 +3,9 @@ EXTENDS Detector
 LevelBound == TLCGet("level") <= 5
 LevelBoundG == TLCGet("level") <= 4
 LevelBoundT == TLCGet("level") <= 6
+OpsAll == {"NewAnt", "NewList", "NewNested", "NewStr", "NewSta", "Plus", "IPlus", "Sum3", "Hit", "Clear", "Build", "Triggered"}
+OpsBuild == {"NewStr", "NewSta", "Plus", "IPlus", "Build"}
+OpsLists == {"NewAnt", "NewList", "NewNested", "NewStr", "Plus", "IPlus", "Hit", "Triggered", "Clear"}
+OpsDeep == {"NewStr", "Plus", "IPlus", "Build"}
+LevelBoundD == TLCGet("level") <= 9
 ====
